@@ -409,8 +409,8 @@ def corr(ctx):
     if not ctx.have_runner:
         return
     cases = [{"kind": "doc", "text": t, "settings": dict(s), "links": []} for t, s in FIXED_DOCS]
-    cases += gen_cases(ctx, ctx.budget(1200, 12000, 12000))
-    cases += synthetic_cases(ctx.rng, ctx.budget(800, 8000, 8000))
+    cases += gen_cases(ctx, ctx.budget(6000, 60000, 60000))
+    cases += synthetic_cases(ctx.rng, ctx.budget(3000, 30000, 30000))
     results = pmap(_observe_any, cases)
     lines, idx = [], []
     for i, (c, r) in enumerate(zip(cases, results)):
@@ -468,12 +468,13 @@ def _next_para_text(el):
 
 
 def exc_signature(e):
-    """exception:<type>:<innermost myst_parser function on the stack>"""
+    """exception:<type>:<module.function that raised>"""
+    import os
     import traceback
+    tb = traceback.extract_tb(e.__traceback__)
     site = "?"
-    for fr in traceback.extract_tb(e.__traceback__):
-        if "myst_parser" in fr.filename:
-            site = fr.name
+    if tb:
+        site = os.path.basename(tb[-1].filename).rsplit(".", 1)[0] + "." + tb[-1].name
     return f"exception:{type(e).__name__}:{site}"
 
 
@@ -559,6 +560,8 @@ def check_doc(ctx, case):
 
 
 def check_case(ctx, case):
+    if case.get("kind") == "sphinx-doc":
+        return check_doc_sphinx(ctx, case)
     if case.get("kind") == "synthetic":
         return True     # registry-level states have no generator-known intent; covered by the correspondence
     if not case.get("links"):
@@ -583,7 +586,7 @@ def search(ctx):
             check_case(ctx, c)
     from gen.c09_docs import gen_case
     cases = []
-    n = ctx.budget(1500, 15000, 30000)
+    n = ctx.budget(8000, 100000, 150000)
     for i in range(n):
         c = gen_case(ctx.rng, want_empty_title=True if i % 10 == 0 else None)
         if i % 9 == 4:
@@ -606,48 +609,129 @@ def search(ctx):
         search_sphinx(ctx)
 
 
-def search_sphinx(ctx):
-    """The same clauses on a Sphinx build (missing links go through pending_xref + MystReferenceResolver)."""
+def check_doc_sphinx(ctx, case):
+    """The same clauses on a one-document Sphinx project (missing links go through pending_xref and
+    MystReferenceResolver).  Sphinx's project-wide resolver lower-cases labels, so case variants and
+    invalidated duplicate names may legitimately resolve there: only links that must hit and links
+    that cannot exist anywhere are judged."""
     import re
     from docutils import nodes
-    from gen.c09_docs import gen_case
     from lib.impl import SphinxProject
-    n = ctx.budget(0, 150, 150)
+    ha = case["settings"]["myst_heading_anchors"]
+    conf = f"myst_enable_extensions = ['attrs_block', 'attrs_inline']\nmyst_heading_anchors = {ha}\n"
+    wit = {"kind": "sphinx-doc", "text": case["text"], "settings": case["settings"], "links": case["links"],
+           "dup_names": case.get("dup_names", [])}
+    try:
+        # a titled index keeps Sphinx's search indexer away from a project whose only title is empty
+        res = SphinxProject({"index.md": "# Index page\n\n```{toctree}\ndoc\n```\n", "doc.md": case["text"]}, conf).build()
+    except Exception as e:
+        ctx.fail("sphinx:" + exc_signature(e), wit, f"Sphinx build raised {e!r}")
+        return False
+    doc = res["doctrees"].get("doc")
+    if not hasattr(doc, "findall"):
+        ctx.fail("sphinx:no-doctree", wit, f"no doctree: {doc!r}")
+        return False
+    warns = re.sub("\x1b\\[[0-9;]*m", "", res["warnings"])
+    wl = sorted(int(m.group(1) or 0) for m in re.finditer(r"doc\.md:(\d*):? WARNING: [^\n]*\[myst\.xref_missing\]", warns))
+    links = case["links"]
+    refs = list(doc.findall(nodes.reference))
+    ok = True
+    if len(refs) != len(links):
+        ctx.fail("sphinx:refs:count", wit, f"{len(links)} '#'-links written, {len(refs)} references in the resolved doctree",
+                 len(links), len(refs))
+        return False
+    known = {l["frag"].lower() for l in links if l["expect"]["hit"] != "missing"} | set(case.get("dup_names", []))
+    sure_missing, maybe = [], []
+    for i, (l, r) in enumerate(zip(links, refs)):
+        e = l["expect"]
+        visible = r.astext()
+        if l["form"] == "text" and visible != l["text"]:
+            ctx.fail("sphinx:text:explicit-changed", wit, f"link {i} {l['src']}: explicit text became {visible!r}", l["text"], visible)
+            ok = False
+        if e["hit"] == "missing":
+            amb = " ".join(l["frag"].lower().split()) in known or any(
+                " ".join(l["frag"].lower().split()) == " ".join(n.lower().split()) for n in _all_names(case))
+            (maybe if amb else sure_missing).append(l["line"])
+            if not amb and l["form"] != "text" and visible not in ("", "#" + l["frag"], l["frag"]):
+                ctx.fail("sphinx:text:missing", wit, f"link {i} {l['src']}: missing target shows {visible!r}", l["frag"], visible)
+                ok = False
+            continue
+        rid = r.get("refid")
+        els = [el for el in doc.findall(nodes.Element) if rid is not None and rid in el.get("ids", [])]
+        if len(els) != 1:
+            ctx.fail("sphinx:hit:" + e["hit"] + ":unresolved", wit,
+                     f"link {i} {l['src']}: refid {rid!r} names {len(els)} nodes (should hit {e['kind']} {e['marker']})")
+            ok = False
+            continue
+        el = els[0]
+        if e["kind"] == "heading":
+            good = (_first_para_text(el).startswith(e["marker"]) if el.tagname in ("section", "document")
+                    else _next_para_text(el).startswith(e["marker"]) if el.tagname in ("rubric", "subtitle", "title") else False)
+        elif e["kind"] == "target":
+            good = el.tagname == "target"
+        else:
+            good = el.tagname == e["kind"] and e["marker"] in el.astext()
+        if not good:
+            ctx.fail("sphinx:hit:" + e["hit"] + ":wrong-node", wit,
+                     f"link {i} {l['src']}: resolved to <{el.tagname}> {el.astext()[:40]!r}, intended {e['kind']} {e['marker']}")
+            ok = False
+        if l["form"] != "text":
+            want = e["title"] if e["title"] else "#" + l["frag"]
+            if visible != want:
+                ctx.fail("sphinx:implicit-text:" + e["hit"], wit, f"link {i} {l['src']}: empty link text shows {visible!r}, expected {want!r}", want, visible)
+                ok = False
+    rest = list(wl)
+    for x in sure_missing:
+        if x in rest:
+            rest.remove(x)
+        else:
+            ctx.fail("sphinx:warn:line", wit, f"Sphinx: no xref_missing warning at line {x} of a missing link (warnings at {wl})",
+                     sorted(sure_missing), wl)
+            ok = False
+            break
+    else:
+        pool = list(maybe)
+        for x in rest:
+            if x in pool:
+                pool.remove(x)
+            else:
+                ctx.fail("sphinx:warn:count", wit, f"Sphinx: unexpected xref_missing warning at line {x} (warnings {wl}, missing links at {sorted(sure_missing)}, ambiguous at {sorted(maybe)})",
+                         sorted(sure_missing), wl)
+                ok = False
+                break
+    return ok
+
+
+def _all_names(case):
+    import re
+    out = set(re.findall(r"^(?:> )?\(([^)]*)\)=$", case["text"], re.M))
+    out |= set(re.findall(r"\{#([^} ]+)\}", case["text"]))
+    out |= set(re.findall(r"^:name: (.*)$", case["text"], re.M))
+    return out
+
+
+def _sphinx_worker(case):
+    from lib.common import Ctx
+    c = Ctx(PID, "quick", 0)
+    try:
+        check_doc_sphinx(c, case)
+    except Exception as e:  # pragma: no cover
+        c.fail("harness:" + type(e).__name__, case, repr(e))
+    return c.failures
+
+
+def search_sphinx(ctx):
+    from gen.c09_docs import gen_case
+    n = ctx.budget(0, 400, 400)
     cases = [gen_case(ctx.rng) for _ in range(n)]
-    for ha in (0, 1, 2, 3):
-        group = [(i, c) for i, c in enumerate(cases) if c["settings"]["myst_heading_anchors"] == ha]
-        if not group:
-            continue
-        files = {"index.md": "# Index\n\n```{toctree}\n" + "\n".join(f"d{i}" for i, _ in group) + "\n```\n"}
-        for i, c in group:
-            files[f"d{i}.md"] = c["text"]
-        conf = f"myst_enable_extensions = ['attrs_block', 'attrs_inline']\nmyst_heading_anchors = {ha}\n"
-        try:
-            res = SphinxProject(files, conf).build()
-        except Exception as e:
-            ctx.fail("sphinx:exception:" + type(e).__name__, {"kind": "sphinx", "files": files, "conf": conf}, repr(e))
-            continue
-        warns = res["warnings"]
-        for i, c in group:
-            ctx.search_cases += 1
-            ctx.count("search:sphinx-doc")
-            doc = res["doctrees"].get(f"d{i}")
-            wl = sorted(int(m.group(1)) for m in re.finditer(rf"d{i}\.md:(\d+): WARNING: [^\n]*\[myst\.xref_missing\]", warns))
-            # names defined in other documents of the project may legitimately resolve project-wide;
-            # the generated names are shared between documents, so only links that must hit are judged here
-            refs = [r for r in doc.findall(nodes.reference) if r.get("id_link") or "refid" in r or "refuri" in r] if hasattr(doc, "findall") else []
-            hits = [l for l in c["links"] if l["expect"]["hit"] != "missing"]
-            exp_missing_lines = sorted(l["line"] for l in c["links"] if l["expect"]["hit"] == "missing")
-            if any(x not in exp_missing_lines for x in wl):
-                ctx.fail("sphinx:warn-on-hit", {"kind": "sphinx-doc", "text": c["text"], "conf": conf},
-                         f"Sphinx: xref_missing at lines {wl}, only {exp_missing_lines} may be missing", exp_missing_lines, wl)
-            if len(set(wl)) != len(wl) and len(wl) > len(exp_missing_lines):
-                ctx.fail("sphinx:warn-count", {"kind": "sphinx-doc", "text": c["text"], "conf": conf},
-                         f"Sphinx: more xref_missing warnings ({wl}) than missing links ({exp_missing_lines})", exp_missing_lines, wl)
-            idl = [r for r in refs if r.get("id_link")]
-            if len(idl) != len(hits) and hasattr(doc, "findall"):
-                ctx.fail("sphinx:refs-count", {"kind": "sphinx-doc", "text": c["text"], "conf": conf},
-                         f"Sphinx: {len(hits)} resolvable '#'-links written, {len(idl)} id_link references remain", len(hits), len(idl))
+    per_sig = {}
+    for c, fails in zip(cases, pmap(_sphinx_worker, cases, chunksize=4)):
+        ctx.search_cases += 1
+        ctx.count("search:sphinx-doc")
+        for f in fails:
+            per_sig[f["signature"]] = per_sig.get(f["signature"], 0) + 1
+            if per_sig[f["signature"]] <= 3:
+                ctx.failures.append(f)
 
 
 def replay(ctx, data):
